@@ -58,6 +58,11 @@ func c19(c *Ctx) {
 			cr = 20
 		}
 		c19RunHammer(c, os.Args[0], "c19-confirmrace", "confirmrace", cr, 240*time.Second)
+		mi := 2
+		if c.Tier == "thorough" {
+			mi = 5
+		}
+		c19RunHammer(c, os.Args[0], "c19-mineinsert", "mineinsert", mi, 240*time.Second)
 	}
 	if c.Tier == "thorough" && os.Getenv("VERIF_C19_NORACE") == "" {
 		c19Race(c)
@@ -176,6 +181,8 @@ func c19Facts(c *Ctx) {
 			c.Count("fact:" + r.Var + ":locked")
 		case r.Entry == "-":
 			c.Count("fact:" + r.Var + ":unlocked-in-constructor/start-up")
+		case r.Var == c19HeadDecision && inList(r.Fn, c19BenignPrechecks):
+			c.Count("fact:" + r.Var + ":benign-precheck-outside-the-section(re-validated under the lock)")
 		default:
 			c.Count("fact:" + r.Var + ":UNLOCKED")
 			k := r.Var + "/" + r.Fn
@@ -209,6 +216,7 @@ var c19LeanVar = map[string]string{
 	"Manager.termList":              "termList",
 	"Manager.evilDeputies":          "evilDeputies",
 	"Beansdb.blockRecord":           "blockRecord",
+	"ForkManager.head.decision":     "headDecision",
 }
 
 func c19Kind(entry string) string {
@@ -256,12 +264,17 @@ func c19GenFacts(c *Ctx) {
   (getBlock4DB; append confirms; setBlock2DB): the r row is held when ChainDatabase.RW is held at the read, the w
   row when RW is held at the write back AND it is the SAME critical section as the read (same Lock() statement, or
   both inherited from the caller and never released in between): a release between read and write = lost update.
+  ForkManager.head.decision = reads of the fork head / stable head that feed a decision: inside every function that
+  takes DPoVP.chainLock, each call that reads the head (directly or through its callees) is a row named
+  <function>/<callee>; held = the call is made with the chain lock of that function held, i.e. the critical section
+  starts BEFORE the head is read.  The rows listed in benignPrechecks are outside on purpose (false in this table):
+  InsertBlock's early exit isIgnorableBlock tests monotone facts and is re-validated under the lock.
 -/
 namespace LemoModel.LockFacts
 
 inductive Var where
   | sigCache | lastSig | head | unConfirmBlocks | lastConfirm | offset | index | termList | evilDeputies
-  | blockRecord
+  | blockRecord | headDecision
   deriving DecidableEq, Repr
 
 def Var.ofString? : String → Option Var
@@ -275,6 +288,7 @@ def Var.ofString? : String → Option Var
   | "Manager.termList" => some .termList
   | "Manager.evilDeputies" => some .evilDeputies
   | "Beansdb.blockRecord" => some .blockRecord
+  | "ForkManager.head.decision" => some .headDecision
   | _ => none
 
 /-- the kind of entry point a row is about (the prefix of the entry name) -/
@@ -323,6 +337,15 @@ def guards : List (Var × String) := [
 		fmt.Fprintf(&b, "  (.%s, %q)%s\n", c19LeanVar[name], guards[name], sep)
 	}
 	b.WriteString(`]
+
+/-- head reads that are deliberately made before the chain lock is taken (see the header) -/
+def benignPrechecks : List String := [` + func() string {
+		var q []string
+		for _, x := range c19BenignPrechecks {
+			q = append(q, fmt.Sprintf("%q", x))
+		}
+		return strings.Join(q, ", ")
+	}() + `]
 
 /-- every listed access of ` + "`v`" + ` from a real entry point holds ` + "`v`" + `'s lock
     (rows with entry "-" are constructor / start-up code that runs before the object is shared) -/
